@@ -64,15 +64,19 @@ func (s *server) Close(ctx context.Context) error {
 	s.ln.Close()
 
 	for {
-		activeConn := 0
 		s.connections.Range(func(key, value interface{}) bool {
 			conn, ok := value.(gracefulExit)
 			if !ok || conn.isIdle() {
 				verifPoint(vpServerCloseIdle, value, 0)
 				value.(Connection).Close()
-			} else {
-				activeConn++
 			}
+			return true
+		})
+		// Close() only starts the teardown of a connection whose handler got busy after the isIdle
+		// check; count what is really still tracked instead of what was not asked to close.
+		activeConn := 0
+		s.connections.Range(func(key, value interface{}) bool {
+			activeConn++
 			return true
 		})
 		if activeConn == 0 { // all connections have been closed
